@@ -85,7 +85,7 @@ def reach (s : RState) : Nat → List Nat → List Nat → List Nat
 
 /-- the set of live objects -/
 def live (s : RState) : List Nat :=
-  s.reach (s.heap.length * (s.heap.length + 1) + s.roots.length + 1) (s.roots.map (·.2)) []
+  s.reach ((s.heap.map (·.kids.length)).sum + s.roots.length + 1) (s.roots.map (·.2)) []
 
 def isLive (s : RState) (u : Nat) : Bool := s.live.contains u
 
